@@ -41,6 +41,7 @@ func main() {
 	part := fs.Int("part", 0, "windows: which slice of the experiment matrix")
 	parts := fs.Int("parts", 1, "windows: number of slices")
 	clients := fs.Int("clients", 3, "conc: client goroutines")
+	maximg := fs.Int("maximg", 0, "conc -crashpoints: crash points per history (0 = 150)")
 	sconc := fs.Int("sconc", 0, "simple/kvs: concurrent clients (0 = sequential driver)")
 	access := fs.Bool("access", false, "conc: record lock events and inode accesses instead of the history")
 	sizesFlag := fs.String("sizes", "", "layout: disk sizes, e.g. 1536-1600,32760-32776 (increasing)")
@@ -161,7 +162,7 @@ func main() {
 		}
 		for i := 0; i < *nseg; i++ {
 			drv.RunConc(drv.ConcCfg{Seed: *seed*1000 + i, Clients: *clients, OpsPer: *steps, Unstable: i%2 == 0, Avoid: avoidSet(*avoid),
-				Access: *access}, t, i)
+				Access: *access, Crash: *crashMode, Loss: *loss, MaxImg: *maximg, DiskSz: concDisk(*crashMode, *disk)}, t, i)
 		}
 		t.Close()
 		fmt.Printf("events=%d\n", t.N)
@@ -239,4 +240,12 @@ func main() {
 		fmt.Fprintln(os.Stderr, "unknown command", cmd)
 		os.Exit(2)
 	}
+}
+
+// concDisk: histories that are crashed use the disk size given (recovery decodes the whole disk for every image)
+func concDisk(crash bool, disk uint64) uint64 {
+	if crash {
+		return disk
+	}
+	return 0
 }
